@@ -170,6 +170,10 @@ def run(pid):
     r.cov["states"] = len(kinds) * 16
     r.cov["transitions"] = len(kinds) * 16 * 15
     r.notes["kinds"] = len(kinds)
+    broken = [(k.name, e) for k, row, e in table if row is None]
+    if broken:
+        # a catalogue entry that cannot even be built would silently drop its rows from the check
+        raise core.MachineryError("catalogue kinds cannot be built: %s" % broken[:5])
     if bad:
         r.notes["kinds_without_stable_features"] = bad[:10]
     from harness import e2ekit
@@ -204,6 +208,8 @@ def _run_rows(r, cat, kinds, outs, focus, thorough):
                     if kind.name in ALSO_SOLICITED and not rig.poisoned:
                         check_row(r, cat, kind, row, rrow, rig, enc, random.Random(core.seed() * 7 + ki * 31 + d + 1000), focus, design_ok,
                                   solicit=ALSO_SOLICITED[kind.name])
+                    if d == 0 and not rig.poisoned and all(cfg.values()):
+                        repeat_row(r, cat, kind, rrow, rig, enc, core.seed() * 7 + ki * 31 + 500, variants[(ki + (1 if enc else 0)) % len(variants)])
                     if rig.poisoned:
                         del rigs[(ck, enc)]    # an exception unwound through the layers (locks may be left held): start from a fresh stack
         if ki == len(kinds) - 1 and focus == "acks":
@@ -299,6 +305,32 @@ def ping_collisions(r, cat, rigs, rng):
 
 # results that a layer claims with or without an outstanding request: also replayed as the reply to that request
 ALSO_SOLICITED = {"in.iq.result.sync": "out.iq.sync.get"}
+
+
+def repeat_row(r, cat, kind, rrow, rig, enc, seed, variant):
+    """The same stanza once more under a new stanza id (a caller ringing again, a notification repeated by the server): what reaches the
+    application and what is written back is the same as the first time - no layer remembers a stanza it has answered."""
+    if kind.direction != "in" or kind.solicited_by or kind.raises:
+        return
+    cfgname = "".join(k for k, v in sorted(rrow["cfg"].items()) if v) or "-"
+    seen = []
+    try:
+        for round_ in (1, 2):
+            node = kind.make_node(random.Random(seed), variant=variant)
+            if node["id"] is not None:
+                node.setAttribute("id", "%s%d" % (node["id"][:-1] or "r", round_))
+            rig.reset()
+            rig.inject(node)
+            downs = [d for d in rig.bottom.down if not (enc and d.tag == "iq" and d["xmlns"] == "encrypt")]
+            seen.append((len(rig.top.up), sorted((d.tag, d["type"] or "", d["class"] or "") for d in downs)))
+    except Exception:
+        rig.poisoned = True
+        return      # an exception for this kind is reported by check_row
+    r.case(("repeat", kind.name, cfgname, enc, variant))
+    r.cov["traces_validated_against_impl"] += 1
+    if seen[0] != seen[1]:
+        r.violation("repeat:%s" % kind.name, "%s (variant %s, modules %s, encryption %s) injected twice under different stanza ids: first time %d entities up / %s down, second time %d up / %s down" % (
+            kind.name, variant, cfgname, enc, seen[0][0], seen[0][1], seen[1][0], seen[1][1]), {"kind": kind.name, "cfg": rrow["cfg"], "enc": enc, "variant": variant})
 
 
 def check_row(r, cat, kind, row, rrow, rig, enc, rng, focus, design_ok, solicit=None, variant=None):
